@@ -32,6 +32,9 @@ func init() {
 	externals["google.golang.org/protobuf/proto.Unmarshal"] = extProtoUnmarshal
 	externals["(*net/http.Client).Do"] = extClientDo
 	externals["time.NewTimer"] = extNewTimer
+	externals["time.NewTicker"] = extNewTicker
+	externals["(*time.Ticker).Stop"] = func(fr *frame, a []value) value { return nil }
+	externals["(*time.Ticker).Reset"] = func(fr *frame, a []value) value { return nil }
 	externals["(*time.Timer).Stop"] = func(fr *frame, a []value) value { return true }
 	externals["(*time.Timer).Reset"] = func(fr *frame, a []value) value { return true }
 	externals["time.After"] = func(fr *frame, a []value) value {
@@ -238,6 +241,21 @@ func extNewTimer(fr *frame, a []value) value {
 	}
 	ch.buf = append(ch.buf, extTimeNow(fr, nil))
 	// type Timer struct { C <-chan Time; initTimer bool }
+	var cell value = structure{ch, false}
+	return &cell
+}
+
+// time.NewTicker: under harness-owned time (verifTimersManual) the ticker delivers one tick per
+// verifAdvanceTime, as long as its channel (capacity 1, like the runtime's) is empty; without
+// harness-owned time it never ticks (a ticker that is always ready would spin its consumer).
+func extNewTicker(fr *frame, a []value) value {
+	i := fr.i
+	i.chanSeq++
+	ch := &channel{cap: 1, id: i.chanSeq}
+	if i.manualTimers {
+		i.pendingTickers = append(i.pendingTickers, ch)
+	}
+	// type Ticker struct { C <-chan Time; initTicker bool }
 	var cell value = structure{ch, false}
 	return &cell
 }
